@@ -117,9 +117,12 @@ CLAIMED.update({
              "row-major order of map_over, with the length law and emptiness; result i of a map is the single run on combination i; a mapping "
              "node's outputs are lists with one entry per combination (None where the item failed or did not produce it) and raise mode "
              "surfaces the first failing item; with a bounded worker pool every completion order yields the input order (MathComp proof: "
-             "sorted permutation of iota). Tied to /repo by runner.map and mapping-node runs against single runs, under adversarial completion orders.",
+             "sorted permutation of iota); items whose node mutates its signature defaults are isolated under every interleaving (MapIsolation.v, "
+             "C10_items_isolated, with the pre-fix sharing of one default copy refuted by computation). Tied to /repo by runner.map and "
+             "mapping-node runs against single runs, under adversarial completion orders, incl. items mutating defaults / cloned broadcasts.",
         design_ref="DESIGN.md section 5 C10",
-        note="clone settings and the asyncio queue itself are runtime behaviour; the pool is modelled by its completion order.",
+        note="clone settings (deep copies of broadcast values) and the asyncio queue itself are runtime behaviour, decided by the oracle; the "
+             "pool is modelled by its completion order.",
         technique="Coq proof (list induction; ssreflect sorted_eq for the pool) + differential oracle against single runs",
     ),
     "C08": dict(
